@@ -9,7 +9,7 @@ import inspect
 import itertools
 
 from cascade.low.builders import JobBuilder, TaskBuilder
-from cascade.low.core import JobInstance
+from cascade.low.core import JobInstance, TaskInstance
 
 from vf import common
 
@@ -54,6 +54,7 @@ def f_falsy(a: int = 0, b: str = "", c=None, *, d: bool = False) -> list:
 
 CALLABLES = [f_none, f_plain, f_typed, f_kwonly, f_var, f_mixed, f_ret, f_strsink, f_falsy]
 POS = [(), (1,), ("ab",), (1, "z"), ([1, 2], None)]
+CHAIN_POS = [(), (11,), ("p", "q", "r")]
 KW_KINDS = ["none", "first-compatible", "first-incompatible", "unknown", "two"]
 SAMPLE_VALUE = {"int": 7, "str": "s", "float": 2.5, "bool": True, "list": [1], "dict": {"k": 1}, "Any": 3}
 WRONG_VALUE = {"int": "no", "str": 5, "float": "no", "bool": "no", "list": 5, "dict": 5}
@@ -130,6 +131,24 @@ def task_case(ci: int, pi: int, kind: str, out: list):
         out.append(({"monitor": "with_values_keyword", "cause": "keyword values/defaults not stored under their names"}, f"{f.__name__}.with_values(**{kw}) -> {t.static_input_kw} expected {want_kw}", rp))
     if base.model_dump() != before:
         out.append(({"monitor": "with_values_mutates", "cause": "with_values changed the task it was called on"}, f"{f.__name__}", rp))
+    # a second binding on top of the first: its values appear under exactly their positions/names, everything bound
+    # before and not re-bound stays where it was, nothing else appears
+    mid = t.model_dump()
+    for p2 in CHAIN_POS:
+        for kw2 in [{}, {"zz2": 9}] + ([{list(kw)[0]: "rebound"}] if kw else []):
+            try:
+                t2 = t.with_values(*p2, **kw2)
+            except Exception as e:
+                out.append(({"monitor": "with_values_raised", "cause": f"{type(e).__name__} in {where_of(e)}; second binding on a bound task"}, f"{f.__name__}.with_values(*{POS[pi]}, **{kw}).with_values(*{p2}, **{kw2}) -> {e!r}", dict(rp, chain=True)))
+                continue
+            want_ps2 = {**want_ps, **{str(i): v for i, v in enumerate(p2)}}
+            want_kw2 = {**want_kw, **kw2}
+            if dict(t2.static_input_ps) != want_ps2:
+                out.append(({"monitor": "with_values_positional", "cause": "second binding: positional values not stored under their index"}, f"{f.__name__}.with_values(*{POS[pi]}).with_values(*{p2}) -> {t2.static_input_ps} expected {want_ps2}", dict(rp, chain=True)))
+            if dict(t2.static_input_kw) != want_kw2:
+                out.append(({"monitor": "with_values_keyword", "cause": "second binding: keyword values not stored under their names"}, f"{f.__name__}.with_values(**{kw}).with_values(**{kw2}) -> {t2.static_input_kw} expected {want_kw2}", dict(rp, chain=True)))
+    if t.model_dump() != mid:
+        out.append(({"monitor": "with_values_mutates", "cause": "with_values changed the task it was called on"}, f"{f.__name__} (second binding)", dict(rp, chain=True)))
     return t, True
 
 
@@ -152,7 +171,7 @@ def snap_job(j: JobInstance):
 
 
 EDGE_SRC = ["a", "ghost"]
-EDGE_OUT = ["0", "nope"]
+EDGE_OUT = ["0", "nope", "x"]
 EDGE_SINK = ["b", "ghost"]
 
 
@@ -200,12 +219,18 @@ def check_build(b: JobBuilder, desc: str, rp: dict, out: list):
 
 def pair_case(arg):
     si, di, vi = arg
+    named = vi >= 4  # variants 4..: as variant 0 but the source has named outputs only
+    vi = vi - 4 if named else vi
     out: list = []
     src_f, sink_f = CALLABLES[si], CALLABLES[di]
-    rp0 = {"kind": "pair", "src": si, "sink": di, "variant": vi}
+    rp0 = {"kind": "pair", "src": si, "sink": di, "variant": vi + (4 if named else 0)}
     n_builds = 0
     try:
         src = TaskBuilder.from_callable(src_f)
+        if named:
+            # a task with named outputs only ("x", "y": no default output "0"), added as a plain TaskInstance
+            d = src.definition.model_copy(update={"output_schema": {"x": src.definition.output_schema["0"], "y": "str"}})
+            src = TaskInstance(definition=d, static_input_kw=dict(src.static_input_kw), static_input_ps=dict(src.static_input_ps))
         sink = TaskBuilder.from_callable(sink_f)
         kwv = kw_for(sink_f, ["none", "first-compatible", "first-incompatible", "unknown"][vi])
         if kwv is None:
@@ -274,6 +299,7 @@ def run(ctx):
                     if POS[pi] or kind != "none":
                         nontrivial.add((ci, pi, kind))
     pairs = [(si, di, vi) for si in range(len(CALLABLES)) for di in range(len(CALLABLES)) for vi in range(4)]
+    pairs += [(si, di, 4) for si in (1, 2, 6) for di in range(len(CALLABLES))]  # sources with named outputs only
     if ctx.quick:
         pairs = [p for p in pairs if p[2] == 0 or p[0] in (2, 3, 6) or (p[2] == 3 and p[0] == 0)]
     res = common.pmap(pair_case, common.rotate(pairs, ctx.seed))
